@@ -362,6 +362,9 @@ func registerExternals(e *Engine) {
 	for _, n := range []string{"log.Printf", "log.Println", "log.Print"} {
 		x[n] = func(p *Path, th *Thread, fr *frame, a []Value) Value { return nil }
 	}
+	// math/rand seeding (607 words of additive-lagged-Fibonacci state): skipped —
+	// no kernel's property depends on the values of the pseudo random stream
+	x["(*math/rand.rngSource).Seed"] = func(p *Path, th *Thread, fr *frame, a []Value) Value { return nil }
 	x["runtime.Callers"] = func(p *Path, th *Thread, fr *frame, a []Value) Value { return mkInt(0) }
 	x["github.com/pkg/errors.callers"] = func(p *Path, th *Thread, fr *frame, a []Value) Value { return (*Value)(nil) }
 	x["runtime/debug.Stack"] = func(p *Path, th *Thread, fr *frame, a []Value) Value { return []Value{} }
